@@ -798,7 +798,13 @@ def _rec_history_job(job):
                 return body(inp, pos)
         g = Grammar.from_string(gtext, recognizers={"T": rec})
         cls = GLRParser if glr else Parser
-        return ctl, cls(g, tables=LALR if tables else SLR)
+
+        def count(context, value):
+            # user state kept where the docs say to keep it: context.extra is per parse
+            seen = context.extra.setdefault("seen", [])
+            seen.append(value)
+            return len(seen)
+        return ctl, cls(g, tables=LALR if tables else SLR, actions={"T": count})
 
     def parse(ctl, p, w, arm):
         ctl["arm"], ctl["n"] = arm, 0
